@@ -29,3 +29,11 @@ let () = register "kmpe" (fun () -> print_milp (encode_kmpe (e_kmpe_inst ())))
 let () = register "errwmax" (fun () ->
   let i = e_err_inst () in let (z, p) = canon_q (w_max i) in
   Printf.printf "%d/%d\n" (int_of_z z) (int_of_pos p))
+(* premises of the C07 / C08 optimality theorems (ErrEncChecked.klae_premises_b / kmpe_premises_b), decided by the
+   extracted verified checkers on the very instance the encoder receives: <inst> <topological order> -> 1 | 0 *)
+let () = register "klaepremises" (fun () ->
+  let i = e_err_inst () in let order = next_list next_n in
+  print_endline (if klae_premises_b i order then "1" else "0"))
+let () = register "kmpepremises" (fun () ->
+  let m = e_kmpe_inst () in let order = next_list next_n in
+  print_endline (if kmpe_premises_b m order then "1" else "0"))
